@@ -351,6 +351,11 @@ def coords(draw, t_max=36, n_max=8):
     n_t = draw(st.integers(1, t_max))
     n_s = draw(st.integers(1, n_max))
     t0 = draw(st.integers(-12, 12))
+    # a share of time axes has a large offset ("hours since 1800"): windows
+    # are then narrow RELATIVE to the size of their bounds (float32-exact:
+    # 1e6 + k/4 needs 22 bits)
+    if draw(st.integers(0, 3)) == 0:
+        t0 += draw(st.sampled_from([4000000, 2000000, -1000000]))
     regular = draw(st.booleans())
     if regular:
         step = draw(st.sampled_from([1, 2, 4]))
